@@ -87,6 +87,13 @@ def run(ctx):
             # (a sub-proposition id may be named with the non-fixing range (0, 1): it is then computed from its children)
             I = gen_interp(ctx.rng, t, total=True, ranges=False, in_bounds=ctx.rng.random() < 0.6, compound_ranges=ctx.rng.random() < 0.5)
             do_case(ctx, {"ast": a, "I": {k: list(v) for k, v in I.items()}})
+        if t["lo"] == t["hi"] and t["k"] == "node":
+            # the model's OWN variable is declared constant and the interpretation says otherwise about it (or the same):
+            # an interpretation entry replaces declared bounds, for the top node as for any other
+            I = gen_interp(ctx.rng, t, total=True, ranges=False, in_bounds=True)
+            I[t["id"]] = (1 - t["lo"],) * 2 if ctx.rng.random() < 0.8 else (t["lo"],) * 2
+            ctx.tags["top-declared-constant-and-interpreted"] += 1
+            do_case(ctx, {"ast": a, "I": {k: list(v) for k, v in I.items()}})
         if ctx.rng.random() < 0.3:
             # a leaf DECLARED constant and interpreted otherwise
             v = constant_leaf_variant(ctx.rng, a, t)
